@@ -26,6 +26,7 @@
 #include "helpers.h"
 #include "keyfile.h"
 
+#include <ctype.h>
 #include <errno.h>
 #include <float.h>
 #include <inttypes.h>
@@ -70,14 +71,23 @@ econf_err key_file_append(econf_file *kf) {
 
 /* --- GETTERS --- */
 
+/* strtoul() and strtoull() accept a minus sign and negate the value. */
+static bool is_negative(const char *string) {
+  while (isspace((unsigned char)*string))
+    string++;
+  return *string == '-';
+}
+
 econf_err getIntValueNum(econf_file key_file, size_t num, int32_t *result) {
   char *endptr;
   if (key_file.file_entry[num].value == NULL)
     return ECONF_KEY_HAS_NULL_VALUE;
   errno = 0;
-  *result = strtol(key_file.file_entry[num].value, &endptr, 0);
-  if (endptr == key_file.file_entry[num].value || errno == ERANGE || (errno != 0 && *result == 0))
+  long value = strtol(key_file.file_entry[num].value, &endptr, 0);
+  if (endptr == key_file.file_entry[num].value || errno == ERANGE || (errno != 0 && value == 0) ||
+      value < INT32_MIN || value > INT32_MAX)
     return ECONF_VALUE_CONVERSION_ERROR;
+  *result = (int32_t) value;
   return ECONF_SUCCESS;
 }
 
@@ -97,9 +107,11 @@ econf_err getUIntValueNum(econf_file key_file, size_t num, uint32_t *result) {
   if (key_file.file_entry[num].value == NULL)
     return ECONF_KEY_HAS_NULL_VALUE;
   errno = 0;
-  *result = strtoul(key_file.file_entry[num].value, &endptr, 0);
-  if (endptr == key_file.file_entry[num].value || errno == ERANGE || (errno != 0 && *result == 0))
+  unsigned long value = strtoul(key_file.file_entry[num].value, &endptr, 0);
+  if (endptr == key_file.file_entry[num].value || errno == ERANGE || (errno != 0 && value == 0) ||
+      value > UINT32_MAX || (value != 0 && is_negative(key_file.file_entry[num].value)))
     return ECONF_VALUE_CONVERSION_ERROR;
+  *result = (uint32_t) value;
   return ECONF_SUCCESS;
 }
 
@@ -109,7 +121,8 @@ econf_err getUInt64ValueNum(econf_file key_file, size_t num, uint64_t *result) {
     return ECONF_KEY_HAS_NULL_VALUE;
   errno = 0;
   *result = strtoull(key_file.file_entry[num].value, &endptr, 0);
-  if (endptr == key_file.file_entry[num].value || errno == ERANGE || (errno != 0 && *result == 0))
+  if (endptr == key_file.file_entry[num].value || errno == ERANGE || (errno != 0 && *result == 0) ||
+      (*result != 0 && is_negative(key_file.file_entry[num].value)))
     return ECONF_VALUE_CONVERSION_ERROR;
   return ECONF_SUCCESS;
 }
